@@ -13,15 +13,6 @@ Section Guard.
 
   Fixpoint cmps_len (r : cmps) : nat := match r with Cnil => 0 | Ccons _ _ x => S (cmps_len x) end.
 
-  (* the top of a test-position expression: and / or / not / conditional expression, recursively *)
-  Fixpoint jumpy (e : expr) : bool :=
-    match e with
-    | EBool _ _ _ _ => true
-    | EUn _ UNot _ => true
-    | EIfExp _ _ _ _ => true
-    | _ => false
-    end.
-
   (* does instrumentation touch the evaluation of this test expression or its consumer? *)
   Definition test_hooks (consumer : list string) : bool :=
     existsb sel consumer || sel "_and" || sel "_or" || sel "_not" || sel "enter_if" || sel "exit_if".
